@@ -28,13 +28,13 @@ TECHNIQUE = ("symbolic iteration-order model (permutation indices for set iterat
 FUNCTIONS = ["codebasin/finder.py:find", "codebasin/finder.py:ParserState.associate/get_setmap", "codebasin/report.py:summary",
              "codebasin/report.py:find_duplicates", "codebasin/report.py:extract_platforms/divergence/coverage/average_coverage",
              "codebasin/report.py:FileTree.Node._platforms_str"]
-STUBS = ["finder.set / report.set -> order-permuting set shim; FakeCodeBase iterates in the chosen order; tabulate captured",
+STUBS = ["finder.set / platform.set / preprocessor.set / report.set -> order-permuting set shim; FakeCodeBase iterates in the chosen order; tabulate captured",
          "hashlib/filecmp/open/Path in report -> in-memory (as in C16)",
          "matplotlib / scipy.cluster.hierarchy / scipy.spatial.distance -> recorders (what clustering() hands to them is compared)"]
 ASSUMPTIONS = ["real PYTHONHASHSEED / scandir variation across processes is modelled, not executed",
                "IEEE rounding differences between summation orders are outside (exact reals)",
                "once the permutation indices are decided the real code runs untraced on that leaf"]
-BOUNDS = {"quick": "find/: 4 scenarios x 6 platform orders x 6 enumeration orders x 6 set-iteration orders; summary/: all insertion orders of "
+BOUNDS = {"quick": "find/: 6 scenarios x 6 platform orders x 6 enumeration orders x 6 set-iteration orders; summary/: all insertion orders of "
                    "4-key tables; clustering/: 24 insertion orders x 24 set-iteration orders of three 4-key tables (matplotlib/scipy replaced by recorders); dup/: 4 files, 24 enumeration orders x 6 set orders; metrics/: every insertion order of every 3-key "
                    "shape over 2 platforms and 4-key shapes over 3 platforms, all counts",
           "thorough": "same plus 5-key tables"}
@@ -94,18 +94,26 @@ def _find_result(files, cmds, asg, plat_order, enum_order, set_order):
     for p in _perm(sorted(conf_items), plat_order):
         conf[p] = conf_items[p]
     ORDER[0] = set_order
-    old = getattr(finder, "set", None)
-    finder.set = PermSet
+    # every module of the analysis path gets the order-permuting set (a `set()` built in platform.py or preprocessor.py
+    # iterates in hash order just like one built in finder.py)
+    import codebasin.platform as platform_mod
+    import codebasin.preprocessor as preprocessor_mod
+
+    mods = (finder, platform_mod, preprocessor_mod)
+    olds = [getattr(m, "set", None) for m in mods]
+    for m in mods:
+        m.set = PermSet
     try:
         state, _ = scen.run_cbi(fs, conf, members)
         attr, dup = scen.attribution(state)
         with memfs.mounted(fs):
             sm = dict(state.get_setmap(memfs.FakeCodeBase(members)))
     finally:
-        if old is None:
-            del finder.set
-        else:
-            finder.set = old
+        for m, old in zip(mods, olds):
+            if old is None:
+                del m.set
+            else:
+                m.set = old
     return {p: frozenset(v) for p, v in attr.items()}, {k: v for k, v in sm.items() if v}
 
 
@@ -124,7 +132,7 @@ def h_find(po: int, eo: int, so: int) -> bool:
         return False
     why = None
     with scen.untraced():
-        files, cmds = c08.TEMPLATES[P["t"]]([True, False])
+        files, cmds = c08.TEMPLATES[P["t"]](P.get("dbits", [True, False]))
         asg = P["asg"]
         try:
             base = _find_result(files, cmds, asg, 0, 0, 0)
@@ -491,9 +499,15 @@ def replay(obd, cex):
 
 def obligations(tier, known):
     obs = []
-    for t, asg in (("shared_define", [0, 1, 2]), ("inc_paths", [0, 0, 1]), ("same_file_inc", [0, 1, 2]), ("same_file_inc", [2, 0, 0])):
-        obs.append(Ob(id="find/%s/%s" % (t, "".join(map(str, asg))), kind="ch", module=__name__, func="h_find", params=dict(t=t, asg=asg, neo=6), timeout=600,
-                      group="find"))
+    for t, asg, db in (("shared_define", [0, 1, 2], None), ("inc_paths", [0, 0, 1], None), ("same_file_inc", [0, 1, 2], None),
+                       ("same_file_inc", [2, 0, 0], None),
+                       # one command with two -I directories that both hold the header: the search order is the command's
+                       ("same_file_inc", [0, 1, 2], [False, True]), ("same_file_inc", [0, 1, 1], [False, False])):
+        params = dict(t=t, asg=asg, neo=6)
+        if db is not None:
+            params["dbits"] = db
+        obs.append(Ob(id="find/%s/%s%s" % (t, "".join(map(str, asg)), "" if db is None else "-d%d%d" % tuple(db)), kind="ch", module=__name__,
+                      func="h_find", params=params, timeout=600, group="find"))
     for i in range(len(TABLES)):
         expect = "witness:C14-summary-order" if "C14-summary-order" in known else "hold"
         for ties in (False, True):
